@@ -61,6 +61,7 @@ static void v_build(void)
 	k_eintr_budget = verif_in.eintr;
 	k_ctl_calls = 0;
 	k_ctl_bad = 0;
+	k_ctl_refuse = 0;
 
 	v_fd.fd = verif_in.fdnum;
 	v_fd.registered = 1;
